@@ -5,8 +5,8 @@ from vlib import Script
 from explore import explore_scripts
 from props import host_common as hc
 
-TYPES = ["_x._tcp.local.", "_y._udp.local."]
-NAMES = ["Printer", "Laser", "My.Srv"]
+TYPES = ["_x._tcp.local.", "_y._udp.local.", "_x._tcp.local.", "_y._udp.local.", ""]       # also the empty type
+NAMES = ["Printer", "Laser", "My.Srv", "B\u00fcro 2", "..", "N" * 40]
 BROWSE = "_services._dns-sd._udp.local."
 
 
@@ -15,7 +15,7 @@ def hexs(s):
 
 
 def svc(name, stype, port, attrs):
-    return "%s,%s,-,%d,%s" % (hexs(stype), hexs(name), port, attrs)
+    return "%s,%s,-,%d,%s" % (hexs(stype) or ".", hexs(name) or ".", port, attrs)      # "." is the empty (non-null) byte array
 
 
 def srv_rec(name, target="h.local.", port=1, ttl=120, rtype=33):
@@ -46,8 +46,8 @@ class World:
             name, stype = self.last[0], self.last[1]
         else:
             name, stype = rng.choice(NAMES), rng.choice(TYPES)
-        port = rng.choice([80, 631, 9100])
-        attrs = rng.choice(["_", "6b=76", "6b=-", "61=62+63=."])
+        port = rng.choice([80, 631, 9100, 0, 65535])
+        attrs = rng.choice(["_", "6b=76", "6b=-", "61=62+63=.", "+".join("%02x=%02x" % (i, i) for i in range(65, 90))])
         if identical and self.last:
             name, stype, port, attrs = self.last        # the very same description again (a refresh by the application)
         self.last = (name, stype, port, attrs)
@@ -244,10 +244,21 @@ def scenario(rng, w):
         w.settle()
 
 
+def with_ghosts(rng, lines):
+    """bystanders on the same server come and go: a second Hostname, a second Provider on the same Hostname"""
+    out = []
+    for l in lines:
+        out.append(l)
+        if l.startswith(("ADV", "UPDATE", "DELIVER", "LATE")) and rng.random() < 0.2:
+            out.append(rng.choice(["GHOST hostname", "GHOST provider 0"]))
+    return out
+
+
 def gen_script(rng, nops, focus):
     if focus != "C11" and rng.random() < 0.03:
         return late_provider_script(rng)
     w = World(rng, rng.choice(["vm", "vm", "my.host"]))
+    w.ghosts = rng.random() < 0.2
     if rng.random() < 0.3:
         scenario(rng, w)
         if rng.random() < 0.4:
@@ -292,7 +303,7 @@ def gen_script(rng, nops, focus):
         if w.last:
             i = inst(w.last[0], w.last[1], 1)
             w.lines.append("DELIVER 4:3232235777|5353|7|0|0|%s,12,0|" % hexs(w.last[1]))
-    return w.lines
+    return with_ghosts(rng, w.lines) if w.ghosts else w.lines
 
 
 CYCLE = 1802000     # hostname: registered 2 s after each (re-)probe, re-probed 30 min after each registration
